@@ -475,16 +475,34 @@ theorem generated_stage_order_is_documented :
        "Shortener", "NEndTrimmer", "LengthTagModifier", "SuffixRemover", "ZeroCapper", "Renamer"] := by
   decide
 
-/-- **The real assembly applies the `-u`/`-U` cuts in the order given** (observed on the working tree by letting every assembled cutter act
-    on a probe read; zero values dropped), single-end and on either read of a pair … -/
+/-- the documented meaning of a list of `-u` values, one after the other, each on what the previous one left: a positive value removes that
+    many bases from the 5' end (they become `{cut_prefix}`), a negative one from the 3' end (`{cut_suffix}`), zero does nothing -/
+def cutsSequentially : List Int → Bytes × Bytes × Bytes → Bytes × Bytes × Bytes
+  | [], st => st
+  | c :: cs, (pre, suf, s) =>
+    if c > 0 then cutsSequentially cs (s.take c.toNat, suf, s.drop c.toNat)
+    else if c < 0 then cutsSequentially cs (pre, s.drop (s.length - c.natAbs), s.take (s.length - c.natAbs))
+    else cutsSequentially cs (pre, suf, s)
+
+/-- **The real program applies the `-u`/`-U` cuts one after the other in the order given** (observed on the working tree: probe reads through
+    the command-line program, removed pieces read off `{cut_prefix}`/`{cut_suffix}`, rest off the output record; `-U` on R2 of a pair) … -/
 theorem generated_cuts_in_given_order :
-    ∀ row ∈ Generated.cutOrder, row.2.1 = row.1.filter (· != 0) ∧ row.2.2.1 = row.1.filter (· != 0) ∧ row.2.2.2 = row.1.filter (· != 0) := by
+    (∀ row ∈ Generated.cutProbes, (row.2.2.1, row.2.2.2.1, row.2.2.2.2) = cutsSequentially row.1 ([], [], row.2.1)) ∧
+    (∀ row ∈ Generated.cutProbesR2, (row.2.2.1, row.2.2.2.1, row.2.2.2.2) = cutsSequentially row.1 ([], [], row.2.1)) := by
   decide
 
-/-- … which is what the assembly model does with the same values (`cuts_in_given_order` for every option record) -/
+/-- what the model does with the same values on the same probe read: assembly (`makeModsSingle`), then the modifiers in list order -/
+def modelCuts (cuts : List Int) (s : Bytes) : Option (Bytes × Bytes × Bytes) :=
+  match makeModsSingle { cut := cuts } [] with
+  | .ok mods =>
+    match runModsS [] mods ⟨[112], s, none⟩ { original := ⟨[112], s, none⟩ } [] with
+    | .ok (r, i, _) => some (i.cutPrefix.getD [], i.cutSuffix.getD [], r.seq)
+    | .error _ => none
+  | .error _ => none
+
+/-- … which is what the model computes for the same values and probe reads (`cuts_in_given_order` and `runModsS_append` for every option record) -/
 theorem generated_cuts_are_model :
-    ∀ row ∈ Generated.cutOrder,
-      (match makeModsSingle { cut := row.1 } [] with | .ok l => some (l.filterMap cutOf) | .error _ => none) = some row.2.1 := by
+    ∀ row ∈ Generated.cutProbes, modelCuts row.1 row.2.1 = some (row.2.2.1, row.2.2.2.1, row.2.2.2.2) := by
   decide
 
 /-- … and it is what the assembly model produces for the corresponding option record -/
